@@ -401,11 +401,12 @@ def writer_targets():
 
 class Field:
     """value of one field of the message being built"""
-    __slots__ = ("single", "parts")
+    __slots__ = ("single", "parts", "cond")
 
-    def __init__(self, single=None, parts=None):
+    def __init__(self, single=None, parts=None, cond=False):
         self.single = single            # Lean text of a PB (singular field) or None
         self.parts = parts              # list of Lean texts of `List PB` (repeated field) or None
+        self.cond = cond                # set on some paths only
 
     def key(self):
         return (self.single, tuple(self.parts) if self.parts is not None else None)
@@ -417,12 +418,14 @@ class State:
         self.ref = {}        # refinements: expression text -> V
         self.fields = {}     # field name -> Field   (insertion order = statement order)
         self.dyn = []        # Lean texts of `List (String × PB)`: fields set through getattr(msg, <computed name>)
+        self.ignored = set() # fields that are set but are not content
 
     def copy(self):
         s = State()
         s.env, s.ref = dict(self.env), dict(self.ref)
         s.dyn = list(self.dyn)
-        s.fields = {k: Field(f.single, list(f.parts) if f.parts is not None else None) for k, f in self.fields.items()}
+        s.fields = {k: Field(f.single, list(f.parts) if f.parts is not None else None, f.cond) for k, f in self.fields.items()}
+        s.ignored = set(self.ignored)
         return s
 
 
@@ -436,6 +439,7 @@ class WriterTr:
         self.t, self.msgs, self.enums, self.tree = t, msgs, enums, tree
         self.msgvar, self.msgtype = t.msgvar, t.msgtype
         self.n = 0
+        self.rows = []       # one dict field -> "set" | "set?" per `return` reached (hoisted dispatch: one per constructor)
 
     # ---- helpers
     def fresh(self):
@@ -601,6 +605,7 @@ class WriterTr:
                 return None
             if isinstance(tgt, ast.Attribute) and self.is_msg(tgt.value):
                 if tgt.attr in self.t.ignore:
+                    st.ignored.add(tgt.attr)
                     return None
                 self.set_single(st, tgt.attr, self.leaf(tgt.attr, self.ev(s.value, st)))
                 return None
@@ -611,6 +616,7 @@ class WriterTr:
             if isinstance(obj, ast.Attribute) and self.is_msg(obj.value) and len(c.args) == 1 and not c.keywords:
                 field = obj.attr
                 if field in self.t.ignore:
+                    st.ignored.add(field)
                     return None
                 if meth == "CopyFrom":
                     self.set_single(st, field, self.leaf(field, self.ev(c.args[0], st)))
@@ -708,6 +714,8 @@ class WriterTr:
         return None
 
     def result(self, st: State) -> str:
+        self.rows.append({**{f: ("set?" if fv.cond else "set") for f, fv in st.fields.items()}, **{f: "set" for f in st.ignored},
+                          **({"*": "set?"} if st.dyn else {})})
         order = CANON.get(self.msgtype, [])
         names = [f for f in order if f in st.fields] + [f for f in st.fields if f not in order]
 
@@ -818,6 +826,7 @@ class WriterTr:
         if a.dyn != b.dyn:
             raise Unsupported("computed field set inside a branch")
         st.dyn = list(a.dyn)
+        st.ignored = a.ignored | b.ignored
         names = list(a.fields) + [f for f in b.fields if f not in a.fields]
         out = {}
         for f in names:
@@ -832,10 +841,11 @@ class WriterTr:
                 parts = list(common)
                 if ra or rb:
                     parts.append(lists(" ++ ".join(ra) if ra else "[]", " ++ ".join(rb) if rb else "[]"))
-                out[f] = Field(parts=parts)
+                out[f] = Field(parts=parts, cond=bool(fa and fa.cond) or bool(fb and fb.cond) or ((fa is None) != (fb is None)))
             else:
                 ea, eb = (fa.single if fa else "PB.null"), (fb.single if fb else "PB.null")
-                out[f] = Field(single=ea if ea == eb else single(ea, eb))
+                out[f] = Field(single=ea if ea == eb else single(ea, eb),
+                               cond=fa is None or fb is None or fa.cond or fb.cond)
         # keep statement order: fields already in st first
         st.fields = {**{k: out[k] for k in st.fields if k in out}, **{k: v for k, v in out.items() if k not in st.fields}}
         env = {}
@@ -931,10 +941,11 @@ class WriterTr:
                 if rep:
                     raise Unsupported("repeated field filled inside a dispatch")
                 vals.append((c, fv.single if fv else "PB.null"))
+            cond = any(b.fields.get(f) is None or b.fields[f].cond for _, b in states)
             if len({v for _, v in vals}) == 1:
-                out[f] = Field(single=vals[0][1])
+                out[f] = Field(single=vals[0][1], cond=cond)
             else:
-                out[f] = Field(single="(match " + scrut + " with " + " ".join(f"| {c.pat} => {v}" for c, v in vals) + ")")
+                out[f] = Field(single="(match " + scrut + " with " + " ".join(f"| {c.pat} => {v}" for c, v in vals) + ")", cond=cond)
         st.fields = {**{k: out[k] for k in st.fields if k in out}, **{k: v for k, v in out.items() if k not in st.fields}}
         return None
 
@@ -957,7 +968,113 @@ class WriterTr:
         if self.t.doc:
             doc += " — " + self.t.doc
         doc += " -/\n"
+        # the table row of this message: a field is "set" when every path sets it
+        names = []
+        for row in self.rows:
+            names += [f for f in row if f not in names]
+        row = {f: ("set" if all(r.get(f) == "set" for r in self.rows) else "set?") for f in names}
+        if "*" in row:
+            del row["*"]
+            for f in self.msgs[self.msgtype]:
+                if f[3] == "FloatExactOrInterval":
+                    row.setdefault(f[0], "set?")
+        self.table_row = (self.msgtype, [(f[0], row[f[0]]) for f in self.msgs[self.msgtype] if f[0] in row])
         return f"{doc}def {self.t.name} {self.t.params} : PB :=\n  {r}\n"
+
+
+# ------------------------------------------------------------------------------------------------ reader: structural extraction
+
+def reader_table(repo, msgs):
+    """XxxFactory.create_from_message: which fields of ITS message the factory touches, and how —
+         "read"   the field is read, never tested with HasField (required / repeated / defaulted by proto2)
+         "read?"  the field is read and tested with HasField (optional data: absent stays absent / constructor default)
+         "has"    only tested (oneof dispatch)
+       -> [(message type, [(field, kind)])], fields in descriptor order.  A loop over `SignalState.__slots__` /
+       `msg.DESCRIPTOR.fields` with HasField(<loop variable>) / getattr(msg, …) touches every slot / every field.
+       The message parameter must not escape (be handed to a helper): otherwise the table would miss reads => Unsupported."""
+    tree = ast.parse(open(os.path.join(repo, READER), encoding="utf-8").read())
+    slots = [e[1] for e in signal_slots(repo)["SignalState.__slots__"]]
+    rows = {}
+    for cls in tree.body:
+        if not (isinstance(cls, ast.ClassDef) and cls.name.endswith("Factory")):
+            continue
+        for fn in cls.body:
+            if not isinstance(fn, ast.FunctionDef):
+                continue
+            # the message parameter: annotated xxx_pb2.Type
+            params = [(a.arg, ast.unparse(a.annotation)) for a in fn.args.args if a.annotation is not None
+                      and "_pb2." in ast.unparse(a.annotation)]
+            if not params:
+                continue
+            if len(params) != 1:
+                raise Unsupported(f"{cls.name}.{fn.name}: {len(params)} message parameters")
+            var, ann = params[0]
+            mtype = ann.split(".")[-1]
+            if mtype not in msgs:
+                raise Unsupported(f"{cls.name}.{fn.name}: unknown message type {mtype}")
+            fields = [f[0] for f in msgs[mtype]]
+            read, tested = set(), set()
+            parents = {}
+            for n in ast.walk(fn):
+                for c in ast.iter_child_nodes(n):
+                    parents[c] = n
+            for n in ast.walk(fn):
+                if not (isinstance(n, ast.Name) and n.id == var and isinstance(n.ctx, ast.Load)):
+                    continue
+                par = parents.get(n)
+                if isinstance(par, ast.Attribute) and par.value is n:
+                    if par.attr == "HasField":
+                        call = parents.get(par)
+                        if not (isinstance(call, ast.Call) and call.func is par and len(call.args) == 1):
+                            raise Unsupported(f"{cls.name}: HasField used oddly")
+                        a = call.args[0]
+                        if isinstance(a, ast.Constant) and isinstance(a.value, str):
+                            if a.value not in fields:
+                                raise Unsupported(f"{cls.name}: HasField({a.value!r}) is not a field of {mtype}")
+                            tested.add(a.value)
+                        elif mtype == "SignalState":
+                            tested.update(x for x in slots if x in fields)
+                        else:
+                            tested.update(fields)
+                    elif par.attr == "DESCRIPTOR":
+                        pass
+                    elif par.attr in fields:
+                        read.add(par.attr)
+                    else:
+                        raise Unsupported(f"{cls.name}: {var}.{par.attr} is not a field of {mtype}")
+                elif isinstance(par, ast.Call) and ast.unparse(par.func) in ("getattr", "hasattr") and par.args and par.args[0] is n:
+                    if ast.unparse(par.func) == "getattr":
+                        a = par.args[1]
+                        if isinstance(a, ast.Constant) and isinstance(a.value, str) and a.value in fields:
+                            read.add(a.value)
+                        elif mtype == "SignalState":
+                            read.update(x for x in slots if x in fields)
+                        else:
+                            read.update(fields)
+                elif isinstance(par, ast.Call) and cls.name == "StateFactory" and "_fill_state" in ast.unparse(par.func):
+                    pass                                    # handed to StateFactory._fill_state, which is scanned as well
+                elif isinstance(par, ast.Call) and ast.unparse(par.func) in ("list",) and mtype in ("IntegerList", "FloatList"):
+                    read.update(fields)
+                else:
+                    raise Unsupported(f"{cls.name}.{fn.name}: the message escapes ({ast.unparse(par)[:50]})")
+            r, t = rows.setdefault(mtype, (set(), set()))
+            r.update(read)
+            t.update(tested)
+    out = []
+    for m in sorted(rows):
+        r, t = rows[m]
+        out.append((m, [(f[0], "read?" if f[0] in r and f[0] in t else "read" if f[0] in r else "has")
+                        for f in msgs[m] if f[0] in r or f[0] in t]))
+    return out
+
+
+def translate_reader_table(repo, msgs):
+    rows = reader_table(repo, msgs)
+    out = ["/-- file_reader_protobuf.py: per message type, the fields its XxxFactory touches: \"read\" (never HasField-tested), "
+           "\"read?\" (read and HasField-tested), \"has\" (tested only) — descriptor order -/",
+           "def readerTable : List (String × List (String × String)) := ["]
+    out.append(",\n".join(f"  ({q(m)}, [{', '.join(f'({q(f)}, {q(k)})' for f, k in fs)}])" for m, fs in rows) + "]")
+    return "\n".join(out) + "\n"
 
 
 # ------------------------------------------------------------------------------------------------ driver
@@ -994,11 +1111,27 @@ def translate_descriptors(msgs, enums):
     return "\n".join(out) + "\n"
 
 
-def translate_writer(repo, t, msgs, enums, tree):
+def translate_writer(repo, t, msgs, enums, tree, rows=None):
     fn = find_func(tree, t.cls, t.func)
     if callable(t.unroll):
         t.unroll = t.unroll(repo)
-    return WriterTr(t, msgs, enums, tree).function(fn)
+    tr = WriterTr(t, msgs, enums, tree)
+    out = tr.function(fn)
+    if rows is not None:
+        rows[t.name] = tr.table_row
+    return out
+
+
+def translate_writer_table(rows, names):
+    missing = [n for n in names if n not in rows]
+    if missing:
+        raise Unsupported(f"no table row for {missing} (builder not translatable)")
+    out = ["/-- file_writer_protobuf.py: per message type, the fields its XxxMessage.create_message sets: \"set\" on every path, "
+           "\"set?\" on some paths only (optional data / oneof member) — descriptor order -/",
+           "def writerTable : List (String × List (String × String)) := ["]
+    rs = sorted(rows[n] for n in names)
+    out.append(",\n".join(f"  ({q(m)}, [{', '.join(f'({q(f)}, {q(k)})' for f, k in fs)}])" for m, fs in rs) + "]")
+    return "\n".join(out) + "\n"
 
 
 def all_targets(repo):
@@ -1016,8 +1149,12 @@ def all_targets(repo):
         return cache["desc"]
 
     out = [("D_descriptors", lambda: translate_descriptors(*desc()))]
-    for t in writer_targets():
-        out.append((t.name, (lambda t=t: translate_writer(repo, t, desc()[0], desc()[1], tree(t.file)))))
+    rows = {}
+    wts = writer_targets()
+    for t in wts:
+        out.append((t.name, (lambda t=t: translate_writer(repo, t, desc()[0], desc()[1], tree(t.file), rows))))
+    out.append(("W_writerTable", lambda: translate_writer_table(rows, [t.name for t in wts if t.func == "create_message"])))
+    out.append(("R_readerTable", lambda: translate_reader_table(repo, desc()[0])))
     return out
 
 
